@@ -1,9 +1,9 @@
-//! Bounded stand-in for C06 (EXHAUSTIVE on toy pairing-friendly curves instantiating the MNT4 model of ark-ec):
+//! Bounded stand-in for C06 (EXHAUSTIVE on toy pairing-friendly curves instantiating the MNT4 and MNT6 models of ark-ec):
 //! for EVERY a, b in [0, r): e(aP, bQ) = e(P, Q)^(ab) with the power taken naively in the target field; e(P, Q) != 1 and has
 //! order exactly r; additivity in both arguments on all pairs of multiples; multi-pairings of every length 0..=5 (several
 //! chunk sizes) = product; prepared = unprepared; Miller loop + final exponentiation = pairing.  Identity arguments are
 //! exercised separately and reported (the MNT4 model has an open finding there).
-use super::toy::{mnt4a, mnt4b};
+use super::toy::{mnt4a, mnt4b, mnt6a, mnt6b};
 use super::Tally;
 use ark_ec::{pairing::{Pairing, PairingOutput}, AffineRepr, CurveGroup, PrimeGroup};
 use ark_ff::{Field, One, PrimeField, Zero};
@@ -81,4 +81,6 @@ fn exhaustive<P: Pairing>(t: &mut Tally, name: &str, r: u64) {
 pub fn toy_pairings(t: &mut Tally) {
     exhaustive::<mnt4a::Pairing>(t, "toy MNT4-A", 257);
     exhaustive::<mnt4b::Pairing>(t, "toy MNT4-B", 313);
+    exhaustive::<mnt6a::Pairing>(t, "toy MNT6-A", 271);
+    exhaustive::<mnt6b::Pairing>(t, "toy MNT6-B", 397);
 }
